@@ -309,12 +309,13 @@ type obs struct {
 	bNil    bool
 	seek    string
 	hasSeek bool
+	pre     int // number of Next() calls made before the Seek (0 = Seek directly after creation): a re-seek, possibly backwards
 }
 
 func (o obs) String() string {
 	sk := ""
 	if o.hasSeek {
-		sk = fmt.Sprintf(".Seek(%q)", o.seek)
+		sk = fmt.Sprintf("%s.Seek(%q)", strings.Repeat(".Next()", o.pre), o.seek)
 	}
 	bs := func(s string, isNil bool) string {
 		if isNil {
@@ -337,7 +338,9 @@ func (o obs) String() string {
 
 func (o obs) kindName() string {
 	n := map[byte]string{'g': "get", 'M': "multiget", 'E': "multiget", 'p': "prefix", 'r': "range"}[o.kind]
-	if o.hasSeek {
+	if o.hasSeek && o.pre > 0 {
+		n += "+reseek"
+	} else if o.hasSeek {
 		n += "+seek"
 	}
 	return n
@@ -377,6 +380,17 @@ func buildObs(full bool) []obs {
 				continue
 			}
 			withSeeks(o)
+		}
+	}
+	// re-seeks: the iterator has been advanced once or twice, then Seek to every key — forwards and
+	// BACKWARDS (upsidedown's doc-id reader re-seeks backwards); the answer is the same as for a Seek
+	// made directly after creation
+	for pre := 1; pre <= 2; pre++ {
+		for _, k := range keys {
+			l = append(l, obs{kind: 'r', aNil: true, bNil: true, hasSeek: true, seek: k, pre: pre})
+			for _, p := range []string{"", "a"} {
+				l = append(l, obs{kind: 'p', a: p, hasSeek: true, seek: k, pre: pre})
+			}
 		}
 	}
 	return l
@@ -463,6 +477,9 @@ func observe(rd store.KVReader, o obs) (got []kv, special string) {
 		return nil, "nil-iterator"
 	}
 	if o.hasSeek {
+		for n := 0; n < o.pre && it.Valid(); n++ {
+			it.Next()
+		}
 		it.Seek([]byte(o.seek))
 	}
 	for n := 0; it.Valid(); n++ {
